@@ -85,6 +85,31 @@ def check_equation_array_properties(equation, particle_arrays):
         raise RuntimeError(msg)
 
 
+def check_group_index_names(group, particle_arrays):
+    """A group's start_idx/stop_idx may name a property or constant of the
+    destination array (its first element is the loop bound): check that every
+    destination of the group has it.
+    """
+    p_arrays = dict((x.name, x) for x in particle_arrays)
+    if group.has_subgroups:
+        return
+    for attr in ('start_idx', 'stop_idx'):
+        name = getattr(group, attr, None)
+        if not isinstance(name, str):
+            continue
+        for equation in group.equations:
+            array = p_arrays.get(equation.dest)
+            if array is None:
+                continue
+            if name not in array.properties and name not in array.constants:
+                msg = ("ERROR: Group {group} uses {attr}='{name}' but the "
+                       "destination array '{dest}' of equation {eq_name} "
+                       "has no such property or constant.".format(
+                           group=group.name, attr=attr, name=name,
+                           dest=equation.dest, eq_name=equation.name))
+                raise RuntimeError(msg)
+
+
 def make_acceleration_evals(particle_arrays, equations, kernel,
                             mode='serial', backend=None):
     '''Returns a list of acceleration evaluators.
@@ -215,6 +240,11 @@ class AccelerationEval(object):
 
         for equation in all_equations:
             check_equation_array_properties(equation, particle_arrays)
+        for group in self.equation_groups:
+            check_group_index_names(group, particle_arrays)
+            if group.has_subgroups:
+                for g in group.equations:
+                    check_group_index_names(g, particle_arrays)
 
         self.mega_groups = [MegaGroup(g, self.Group)
                             for g in self.equation_groups]
